@@ -465,6 +465,149 @@ func init() {
 		}
 		return it.reflectValue(Iface{t: to, v: v})
 	}
+	rvPayload := func(it *Interp, fr *frame, v Value, what string) Iface {
+		x, ok := reflectPayload(v)
+		if !ok {
+			it.goPanicf(fr, "reflect: call of reflect.Value.%s on zero Value", what)
+		}
+		return x
+	}
+	intrinsics["(reflect.Value).String"] = func(it *Interp, fr *frame, args []Value) Value {
+		x, ok := reflectPayload(args[0])
+		if !ok {
+			return mkStr("<invalid Value>")
+		}
+		if s, isStr := x.v.(Str); isStr {
+			return s
+		}
+		return mkStr("<" + types.TypeString(x.t.t, func(p *types.Package) string { return p.Name() }) + " Value>")
+	}
+	intrinsics["(reflect.Value).Int"] = func(it *Interp, fr *frame, args []Value) Value {
+		x := rvPayload(it, fr, args[0], "Int")
+		return mkResize(x.v.(*Term), 64, true)
+	}
+	intrinsics["(reflect.Value).Uint"] = func(it *Interp, fr *frame, args []Value) Value {
+		x := rvPayload(it, fr, args[0], "Uint")
+		return mkResize(x.v.(*Term), 64, false)
+	}
+	intrinsics["(reflect.Value).Bool"] = func(it *Interp, fr *frame, args []Value) Value {
+		return rvPayload(it, fr, args[0], "Bool").v
+	}
+	intrinsics["(reflect.Value).Float"] = func(it *Interp, fr *frame, args []Value) Value {
+		x := rvPayload(it, fr, args[0], "Float")
+		if f, ok := x.v.(float32); ok {
+			return float64(f)
+		}
+		return x.v
+	}
+	intrinsics["(reflect.Value).Len"] = func(it *Interp, fr *frame, args []Value) Value {
+		x := rvPayload(it, fr, args[0], "Len")
+		switch v := x.v.(type) {
+		case Str:
+			return mkConst(64, uint64(len(v.b)))
+		case Slice:
+			return mkConst(64, uint64(len(v.a)))
+		case ArrayV:
+			return mkConst(64, uint64(len(v.a)))
+		case *MapObj:
+			if v == nil {
+				return mkConst(64, 0)
+			}
+			return mkConst(64, uint64(v.n))
+		}
+		it.goPanicf(fr, "reflect: call of reflect.Value.Len on %s Value", x.t.name)
+		return nil
+	}
+	intrinsics["(reflect.Value).Index"] = func(it *Interp, fr *frame, args []Value) Value {
+		x := rvPayload(it, fr, args[0], "Index")
+		i := int(it.concreteInt(fr, termArg(args[1]), "reflect Index"))
+		switch v := x.v.(type) {
+		case Slice:
+			if i < 0 || i >= len(v.a) {
+				it.goPanicf(fr, "reflect: slice index out of range")
+			}
+			return it.reflectValue(Iface{t: x.t.elem, v: copyVal(v.a[i])})
+		case ArrayV:
+			if i < 0 || i >= len(v.a) {
+				it.goPanicf(fr, "reflect: array index out of range")
+			}
+			return it.reflectValue(Iface{t: x.t.elem, v: copyVal(v.a[i])})
+		case Str:
+			if i < 0 || i >= len(v.b) {
+				it.goPanicf(fr, "reflect: string index out of range")
+			}
+			return it.reflectValue(Iface{t: it.p.tt.Of(types.Typ[types.Uint8]), v: v.b[i]})
+		}
+		it.goPanicf(fr, "reflect: call of reflect.Value.Index on %s Value", x.t.name)
+		return nil
+	}
+	intrinsics["(reflect.Value).Type"] = func(it *Interp, fr *frame, args []Value) Value {
+		return it.rtype(rvPayload(it, fr, args[0], "Type").t)
+	}
+	intrinsics["(reflect.Value).Bytes"] = func(it *Interp, fr *frame, args []Value) Value {
+		return rvPayload(it, fr, args[0], "Bytes").v
+	}
+	intrinsics["(reflect.Value).Elem"] = func(it *Interp, fr *frame, args []Value) Value {
+		x := rvPayload(it, fr, args[0], "Elem")
+		switch v := x.v.(type) {
+		case Ptr:
+			if v.cell == nil {
+				return it.reflectValue(Iface{})
+			}
+			return it.reflectValue(Iface{t: x.t.elem, v: it.load(fr, v, x.t.elem)})
+		case Iface:
+			return it.reflectValue(Iface{t: v.t, v: v.v})
+		}
+		it.goPanicf(fr, "reflect: call of reflect.Value.Elem on %s Value", x.t.name)
+		return nil
+	}
+	intrinsics["(reflect.Value).NumField"] = func(it *Interp, fr *frame, args []Value) Value {
+		x := rvPayload(it, fr, args[0], "NumField")
+		return mkConst(64, uint64(len(x.v.(StructV).f)))
+	}
+	intrinsics["(reflect.Value).Field"] = func(it *Interp, fr *frame, args []Value) Value {
+		x := rvPayload(it, fr, args[0], "Field")
+		i := int(it.concreteInt(fr, termArg(args[1]), "reflect Field"))
+		sv := x.v.(StructV)
+		return it.reflectValue(Iface{t: x.t.fields[i], v: copyVal(sv.f[i])})
+	}
+	intrinsics["(reflect.Value).CanInterface"] = func(it *Interp, fr *frame, args []Value) Value { return tTrue }
+	intrinsics["(reflect.Value).CanAddr"] = func(it *Interp, fr *frame, args []Value) Value { return tFalse }
+	intrinsics["(reflect.Value).UnsafePointer"] = func(it *Interp, fr *frame, args []Value) Value {
+		x := rvPayload(it, fr, args[0], "UnsafePointer")
+		if p, ok := x.v.(Ptr); ok {
+			return p
+		}
+		return Ptr{}
+	}
+	intrinsics["(reflect.Value).Pointer"] = func(it *Interp, fr *frame, args []Value) Value {
+		x := rvPayload(it, fr, args[0], "Pointer")
+		if p, ok := x.v.(Ptr); ok && p.cell == nil {
+			return mkConst(64, 0)
+		}
+		return mkConst(64, 0xc000010000)
+	}
+	intrinsics["(*reflect.rtype).Name"] = func(it *Interp, fr *frame, args []Value) Value {
+		t := it.rtypeArg(fr, args[0])
+		if n, ok := t.t.(*types.Named); ok {
+			return mkStr(n.Obj().Name())
+		}
+		if b, ok := t.t.(*types.Basic); ok {
+			return mkStr(b.Name())
+		}
+		return Str{}
+	}
+	intrinsics["(*reflect.rtype).PkgPath"] = func(it *Interp, fr *frame, args []Value) Value {
+		t := it.rtypeArg(fr, args[0])
+		if n, ok := t.t.(*types.Named); ok && n.Obj().Pkg() != nil {
+			return mkStr(n.Obj().Pkg().Path())
+		}
+		return Str{}
+	}
+	intrinsics["(*reflect.rtype).NumMethod"] = func(it *Interp, fr *frame, args []Value) Value {
+		t := it.rtypeArg(fr, args[0])
+		return mkConst(64, uint64(it.p.prog.MethodSets.MethodSet(t.t).Len()))
+	}
 	intrinsics["(reflect.Value).Interface"] = func(it *Interp, fr *frame, args []Value) Value {
 		x, ok := reflectPayload(args[0])
 		if !ok {
@@ -822,7 +965,7 @@ func (it *Interp) rtype(ti *TInfo) Value {
 func (it *Interp) rtypeArg(fr *frame, v Value) *TInfo {
 	r, ok := v.(RTypeV)
 	if !ok {
-		it.abort("unmodelled", fmt.Sprintf("reflect.Type backed by %T", v))
+		it.abort("unmodelled", fmt.Sprintf("reflect.Type backed by %T at %s", v, it.stackString(fr)))
 	}
 	return r.ti
 }
